@@ -894,6 +894,7 @@ func (c *CharClassMatcher) parse() {
 	// content of char class is necessarily valid, so escapes are correct
 	r := strings.NewReader(raw)
 	var chars []rune
+	var escaped []bool // escaped[i] reports whether chars[i] was written as an escape sequence
 	var buf bytes.Buffer
 outer:
 	for {
@@ -909,6 +910,7 @@ outer:
 			switch rn {
 			case ']':
 				chars = append(chars, rn)
+				escaped = append(escaped, true)
 				continue
 
 			case 'p':
@@ -946,9 +948,11 @@ outer:
 			}
 			rn, _, _, _ = strconv.UnquoteChar("\\"+buf.String(), 0)
 			chars = append(chars, rn)
+			escaped = append(escaped, true)
 
 		default:
 			chars = append(chars, rn)
+			escaped = append(escaped, false)
 		}
 	}
 
@@ -962,7 +966,8 @@ outer:
 			continue
 		}
 
-		if r == '-' && !wasRange && len(c.Chars) > 0 && i < len(chars)-1 {
+		// only a literal '-' is the range operator, an escaped one (\x2d) is a plain character
+		if r == '-' && !escaped[i] && !wasRange && len(c.Chars) > 0 && i < len(chars)-1 {
 			inRange = true
 			wasRange = false
 			// start of range is the last Char added
